@@ -34,7 +34,10 @@ Inductive op : Type :=
 | OContains (x : Z)                      (* x in rule *)
 | OBetween (a b : Z) (inc : bool)        (* rule.between(a, b, inc) *)
 | OBefore (x : Z) (inc : bool)           (* rule.before(x, inc) *)
-| OAfter (x : Z) (inc : bool).           (* rule.after(x, inc) *)
+| OAfter (x : Z) (inc : bool)            (* rule.after(x, inc) *)
+| OSliceTo (k : nat)                     (* rule[:k]   -> list(islice(self, None, k, None)): pulls min(k, n) items *)
+| ONegIdx (k : nat)                      (* rule[-(k+1)] -> list(iter(self))[-(k+1)] *)
+| OXafter (x : Z) (cnt : option Z) (inc : bool).   (* list(rule.xafter(x, cnt, inc)) *)
 
 Inductive exn : Type := EIndexError | ETypeError | EValueError.
 Inductive outcome : Type := Ret (l : list Z) | Raise (e : exn).
@@ -57,6 +60,14 @@ Definition wants (o : op) (seen : list Z) : bool :=
   | OBetween _ b inc => match last_opt seen with None => true | Some y => negb (past b inc y) end
   | OBefore x inc => match last_opt seen with None => true | Some y => negb (past x inc y) end
   | OAfter x inc => match last_opt seen with None => true | Some y => negb (reached x inc y) end
+  | OSliceTo k => (length seen <? k)%nat
+  | ONegIdx _ => true
+  | OXafter x cnt inc =>
+      (* n counts the matches; the loop breaks at the first match with n > count *)
+      match cnt with
+      | None => true
+      | Some c => Z.of_nat (length (filter (reached x inc) seen)) <=? Z.max c 0
+      end
   end.
 
 Fixpoint between_loop (a b : Z) (inc started : bool) (l : list Z) : list Z :=
@@ -96,6 +107,11 @@ Definition result (o : op) (seen : list Z) : outcome :=
   | OBetween a b inc => Ret (between_loop a b inc false seen)
   | OBefore x inc => ret_opt (before_loop x inc None seen)
   | OAfter x inc => ret_opt (after_loop x inc seen)
+  | OSliceTo _ => Ret seen
+  | ONegIdx k => match nth_error (rev seen) k with Some y => Ret [y] | None => Raise EIndexError end
+  | OXafter x cnt inc =>
+      let f := filter (reached x inc) seen in
+      Ret (match cnt with None => f | Some c => firstn (Z.to_nat c) f end)
   end.
 
 (* the values a consumer takes from a source that would yield `rest` after `seen` *)
